@@ -81,7 +81,9 @@ def main():
                 rc2, out2 = sh('./run %s %s' % (c, tier), cwd=V, env=env2, timeout=7200)
                 lines = [l for l in out2.split('\n') if l.startswith(('VIOLATION', 'KNOWN-FINDING', 'HARNESS-ERROR', c + ' '))]
                 result['checks'][c] = {'exit': rc2, 'violations': sum(1 for l in lines if l.startswith('VIOLATION')),
-                                       'detected': rc2 == 1, 'lines': lines[:6], 'wall_s': round(time.time() - t0, 1)}
+                                       # detected = the check's own verdict: exit 1 WITH a VIOLATION line for that property (a crash of the
+                                       # harness also exits non-zero and is not a detection)
+                                       'detected': rc2 == 1 and any(l.startswith('VIOLATION property=%s ' % c) for l in lines), 'lines': lines[:6], 'wall_s': round(time.time() - t0, 1)}
                 result['ran'].append('scratch worktree of /repo HEAD + patch.diff; VERIF_REPO=<worktree> ./run %s %s' % (c, tier))
     finally:
         sh('git -C /repo worktree remove --force %s' % wt2)
